@@ -21,10 +21,13 @@ import tempfile
 import time
 
 VERIF = os.path.dirname(os.path.abspath(__file__))
-HARNESS = os.path.join(VERIF, "harness")
-BUILD = os.path.join(VERIF, ".build")
-EVIDENCE = os.path.join(VERIF, "evidence")
-REPLAYS = os.path.join(VERIF, "replays")
+# VERIF_HARNESS / VERIF_WORK redirect the harness copy and all outputs: used only
+# for sensitivity (mutation) runs against a scratch copy of the repository.
+HARNESS = os.environ.get("VERIF_HARNESS") or os.path.join(VERIF, "harness")
+WORK = os.environ.get("VERIF_WORK") or VERIF
+BUILD = os.path.join(WORK, ".build")
+EVIDENCE = os.path.join(WORK, "evidence")
+REPLAYS = os.path.join(WORK, "replays")
 REGRESS = os.path.join(VERIF, "regress")
 KNOWN = os.path.join(VERIF, "known_findings.json")
 NCPU = os.cpu_count() or 4
@@ -55,7 +58,7 @@ def load_known():
 
 def sync_gosum():
     # the harness module resolves the repo's dependencies; keep go.sum a superset
-    src = "/repo/go.sum"
+    src = os.path.join(os.environ.get("VERIF_REPO", "/repo"), "go.sum")
     dst = os.path.join(HARNESS, "go.sum")
     try:
         have = set(open(dst).read().splitlines()) if os.path.exists(dst) else set()
